@@ -279,12 +279,54 @@ Non-trivial: initial window ≥ 2 bytes and ≥ 1 op; distinct = distinct query 
         run_case(w, &c);
     }
     long_slides(w, thorough);
+    sparse_windows(w);
 }
 
 /// LONG slides (tens of millions of one-byte rolls without a rebuild), oracle only: the lazily reduced sums of the fast type
 /// must never leave the range in which its digest is the definition's — for a window built by `new` AND for one filled by
 /// `push` from empty (the operation counter is shared between `push` and `roll`: seed C17-K let a push swallow the tick that
 /// triggers the reduction, after which no roll ever reduces again and the sums wrap near 2.4e7 slides).
+/// Windows that are all zeros except for their LAST few bytes, at lengths from 512 up that are not a multiple of 8 (a hole with a
+/// short trailer): `new` of both types gives the definition's value, and so does every slide on from there (seed C17-O: a
+/// "zero block" fast path in `new` that looks at whole 8-byte words only).
+fn sparse_windows(w: &mut Out) {
+    for wlen in [513usize, 517, 519, 1021, 2047, 4099, 8191, 65535, 65533, 512, 520] {
+        for tail in [1usize, 2, 3, 7] {
+            if tail > wlen { continue; }
+            let mut win: VecDeque<u8> = (0..wlen).map(|_| 0u8).collect();
+            for k in 0..tail { win[wlen - 1 - k] = 7 + k as u8; }
+            let init: Vec<u8> = win.iter().copied().collect();
+            let res = guarded(|| {
+                let (mut f, mut r) = (FastRollingChecksum::new(&init), RollingChecksum::new(&init));
+                let (a, b) = spec_from_scratch(&win);
+                let want = spec_digest(a, b);
+                if f.digest() != want || r.digest() != want {
+                    return Some(format!("`new` of a {wlen}-byte window of zeros ending in {tail} data byte(s): fast digest {} / plain digest {} / definition {want}", f.digest(), r.digest()));
+                }
+                let mut win2 = win.clone();
+                for k in 0..40u32 {
+                    let o = win2.pop_front().unwrap_or(0);
+                    let nb = (k * 37 % 256) as u8;
+                    win2.push_back(nb);
+                    f.roll(o, nb); r.roll(o, nb);
+                }
+                let (a, b) = spec_from_scratch(&win2);
+                let want = spec_digest(a, b);
+                if f.digest() != want || r.digest() != want {
+                    return Some(format!("40 slides on from a sparse {wlen}-byte window: fast {} / plain {} / definition {want}", f.digest(), r.digest()));
+                }
+                None
+            });
+            w.count("sparse-windows");
+            match res {
+                Ok(None) => {}
+                Ok(Some(m)) => w.fail(0, "digest-differs-from-definition", &m),
+                Err(()) => w.fail(0, "checksum-panic", &format!("panic on a sparse {wlen}-byte window")),
+            }
+        }
+    }
+}
+
 fn long_slides(w: &mut Out, thorough: bool) {
     let slides: u64 = if thorough { 60_000_000 } else { 27_000_000 };
     for (built, wlen) in [("new", 8192usize), ("push", 8192), ("push", 5000), ("push", 65536)] {
